@@ -181,7 +181,7 @@ func sigOf(fe *frontEnd, d *disc, m *meta) string {
 		switch m.family {
 		case "numbers":
 			return core.Sig(numSig(fe.name, fe.path, m.lit, d.kind)...)
-		case "strings", "uescape":
+		case "strings", "uescape", "string-pairs":
 			return core.Sig("str", fe.name, fe.path, "item="+m.item, "ctx="+m.ctx, d.kind)
 		}
 		return core.Sig("struct", fe.name, fe.path, "family="+m.family, d.kind)
@@ -230,6 +230,7 @@ func run(c *core.Ctx) {
 	runNumbers(j, next)
 	runStrings(j, next)
 	runUEscapes(j, next)
+	runStringPairs(j, next)
 	runStructure(j, next)
 	runDupKeys(j, next)
 	c.Add("reference_cross_checks", j.xchk)
@@ -404,6 +405,102 @@ func runUEscapes(j *judge, next func() bool) {
 		}
 	}
 	c.Add("uescape_texts", n)
+}
+
+// ---------------------------------------------------------------- string pairs
+
+// pairPlaces are documents with two strings under test: what the first one
+// leaves behind in a front-end (scratch buffers, escape state) must not show
+// in the second. %[1]s and %[2]s are the two strings as written between quotes.
+var pairPlaces = []struct{ name, format, ctx1, ctx2 string }{
+	{"key-value", `{"%[1]s":"%[2]s"}`, "key", "value"},
+	{"key-key", `{"%[1]s":1,"k%[2]s":2}`, "key", "key"},
+	{"value-key", `{"k":"%[1]s","%[2]s":1}`, "value", "key"},
+	{"value-value", `["%[1]s","%[2]s"]`, "value", "value"},
+	{"nested", `[{"%[1]s":["%[1]s"]},{"%[2]s":0}]`, "key", "key"},
+}
+
+// runStringPairs: every ordered pair of one- and two-item strings in every
+// pair placement. A failure that one of the two strings already shows alone
+// (in the single-string family) is attributed to that string's item class so
+// that it keeps its signature; everything else is a pair signature.
+func runStringPairs(j *judge, next func() bool) {
+	c := j.c
+	var strs [][]int
+	for i := range items {
+		strs = append(strs, []int{i})
+	}
+	for i := range items {
+		strs = append(strs, []int{0, i})
+		if !c.Quick() {
+			strs = append(strs, []int{i, 0})
+		}
+	}
+	place := map[string]int{}
+	for i, sp := range strPlaces {
+		if _, ok := place[sp.ctx]; !ok || sp.name == "array" {
+			place[sp.ctx] = i
+		}
+	}
+	memo := map[string]uint{}
+	failsAlone := func(ctx string, seq []int) uint {
+		k := fmt.Sprint(ctx, seq)
+		if v, ok := memo[k]; ok {
+			return v
+		}
+		sp := &strPlaces[place[ctx]]
+		text := []byte(sp.pre + seqText(seq) + sp.post)
+		var bits uint
+		if rc := j.prepare(text); rc != nil {
+			for i, fe := range frontEnds {
+				c.Add("attribution_runs", 1)
+				if j.verdict(rc, fe.exec(text)) != nil {
+					bits |= 1 << uint(i)
+				}
+			}
+		}
+		memo[k] = bits
+		return bits
+	}
+	var n int64
+	for _, s1 := range strs {
+		if c.Expired("C02 string pairs") {
+			return
+		}
+		for _, s2 := range strs {
+			for pi := range pairPlaces {
+				if !next() {
+					continue
+				}
+				pp := &pairPlaces[pi]
+				t1, t2 := seqText(s1), seqText(s2)
+				if pp.name == "key-key" && t1 == "k"+t2 {
+					continue // would be a duplicate key
+				}
+				text := []byte(fmt.Sprintf(pp.format, t1, t2))
+				m := &meta{family: "string-pairs", item: "pair:" + pp.name, ctx: pp.ctx2}
+				j.runText(text, m, func(fe *frontEnd, d *disc) string {
+					var feBit uint
+					for i, f := range frontEnds {
+						if f == fe {
+							feBit = 1 << uint(i)
+						}
+					}
+					if failsAlone(pp.ctx1, s1)&feBit != 0 {
+						return seqClasses(s1[len(s1)-1:])
+					}
+					if failsAlone(pp.ctx2, s2)&feBit != 0 {
+						return seqClasses(s2[len(s2)-1:])
+					}
+					return "pair:" + pp.name
+				})
+				n++
+				c.Add("texts", 1)
+				c.Nontrivial()
+			}
+		}
+	}
+	c.Add("string_pair_texts", n)
 }
 
 // ---------------------------------------------------------------- structure
